@@ -69,6 +69,13 @@ def literalSchema (vs : List Lit) : Sch :=
   | [v] => .mk types (some v) [] {} none none [] [] none [] [] none
   | vs => .mk types none vs {} none none [] [] none [] [] none   -- `types` is a `set`: not normalised
 
+/-- `json_schema(...)` drops default-valued keywords (`items: {}` / `true`, `additionalProperties: {}` / `true`)
+    *before* `_visited_union` looks at the keys of an alternative: the builder never stores them -/
+def subKw (s : Sch) : Option (Bool ⊕ Sch) := if s.isEmpty then none else some (.inr s)
+def apKw (ap : Bool) : Option (Bool ⊕ Sch) := if ap then none else some (.inl false)
+
+def Sch.noLits : Sch → Bool | .mk _ c e _ _ _ _ _ _ _ _ _ => c.isNone && e.isEmpty
+
 /-- `_visited_union` -/
 def unionSchema (rs : List Sch) : Sch :=
   match rs with
@@ -76,7 +83,8 @@ def unionSchema (rs : List Sch) : Sch :=
   | rs =>
     if rs.any Sch.isEmpty then Sch.empty
     else if rs.all Sch.onlyType then Sch.ofType' (normTypes (rs.flatMap Sch.type))
-    else if rs.length == 2 && rs.all (fun r => !r.type.isEmpty) && rs.any (fun r => r.onlyType && r.type == [.null]) then
+    else if rs.length == 2 && rs.all (fun r => !r.type.isEmpty) && rs.any (fun r => r.onlyType && r.type == [.null])
+            && rs.all Sch.noLits then     -- (repair of row 28: not with `enum` / `const`)
       match rs.find? (fun r => !(r.onlyType && r.type == [.null])) with
       | some r => if r.type.contains .null then r else r.withType (r.type ++ [.null])
       | Option.none => Sch.ofType .null
@@ -97,7 +105,7 @@ def mergeInto (c : Constraints) (s : Sch) : Sch := s.withCons (c.merge s.cons)
 def mappingSchema (k v : Sch) : Sch :=
   match k.cons.pattern with
   | some p => .mk [.object] none [] {} none none [] [] none [(p, v)] [] none
-  | Option.none => .mk [.object] none [] {} none none [] [] (some (.inr v)) [] [] none
+  | Option.none => .mk [.object] none [] {} none none [] [] (subKw v) [] [] none
 /-- `visit_field`: default added for non-required fields -/
 def fieldSchema (f : FieldInfo) (t : Ty) (s : Sch) : Sch :=
   -- `with suppress(Exception): result["default"] = serialize(field.type, default, check_type=True)`
@@ -110,10 +118,10 @@ def buildD (ap : Bool) : Ty → Sch
   | .null => .ofType .null | .bool => .ofType .boolean | .int => .ofType .integer
   | .float => .ofType .number | .str => .ofType .string
   | .any => .empty
-  | .list t => .mk [.array] none [] {} (some (.inr (buildD ap t))) none [] [] none [] [] none
-  | .vtuple t => .mk [.array] none [] {} (some (.inr (buildD ap t))) none [] [] none [] [] none
-  | .set t => .mk [.array] none [] { unique := true } (some (.inr (buildD ap t))) none [] [] none [] [] none
-  | .frozenset t => .mk [.array] none [] { unique := true } (some (.inr (buildD ap t))) none [] [] none [] [] none
+  | .list t => .mk [.array] none [] {} (subKw (buildD ap t)) none [] [] none [] [] none
+  | .vtuple t => .mk [.array] none [] {} (subKw (buildD ap t)) none [] [] none [] [] none
+  | .set t => .mk [.array] none [] { unique := true } (subKw (buildD ap t)) none [] [] none [] [] none
+  | .frozenset t => .mk [.array] none [] { unique := true } (subKw (buildD ap t)) none [] [] none [] [] none
   | .tuple ts => .mk [.array] none [] { minItems := some ts.length, maxItems := some ts.length }
       (some (.inl false)) (some (buildDL ap ts)) [] [] none [] [] none
   | .mapping k v => mappingSchema (buildD ap k) (buildD ap v)
@@ -122,7 +130,7 @@ def buildD (ap : Bool) : Ty → Sch
   | .enum _ ms => literalSchema (ms.map (·.2))
   | .newtype _ t => buildD ap t
   | .ann c t => mergeInto c (buildD ap t)
-  | .obj _ fs => .mk [.object] none [] {} none none (buildDF ap fs) (requiredF fs) (some (.inl ap)) [] [] none
+  | .obj _ fs => .mk [.object] none [] {} none none (buildDF ap fs) (requiredF fs) (apKw ap) [] [] none
 termination_by structural t => t
 def buildDL (ap : Bool) : List Ty → List Sch
   | [] => []
